@@ -337,9 +337,7 @@ class Inliner:
             return None
         if h0.module.name == self.m.name:
             return q if q in self.pristine else None
-        # a helper of another module: only if every global name its body uses means the same thing in this module
-        if h0.cls is not None:
-            return None
+        # a helper of another module (function or method): only if every global name its body uses means the same thing in this module
         if q not in self.pristine:
             if not self._foreign_compatible(h0):
                 return None
